@@ -240,3 +240,75 @@ Proof.
     lia.
   - rewrite T1. reflexivity.
 Qed.
+
+(* ------------------------------------------------------------------ the other direction: writing the inferred types *)
+(* the definitions chosen by sel get the type of their value as annotation (whatever they had) *)
+Fixpoint annotate1 (sel : nat -> bool) (i : nat) (E : tenv) (ss : list s1) : list s1 :=
+  match ss with
+  | [] => []
+  | st :: q =>
+    let st' := match st with
+               | D1 x k annot e => D1 x k (if sel i then (match ty1 E e with Some t => Some t | None => annot end) else annot) e
+               | _ => st
+               end in
+    st' :: annotate1 sel (S i) (match ty_stmt1 E st with Some E1 => E1 | None => E end) q
+  end.
+
+Lemma bty_eqb_refl t : bty_eqb t t = true.
+Proof. destruct t; reflexivity. Qed.
+
+Lemma annotate1_typed sel : forall ss i E E', ty_stmts1 E ss = Some E' -> ty_stmts1 E (annotate1 sel i E ss) = Some E'.
+Proof.
+  induction ss as [|st q IH]; intros i E E' H; [exact H|]. cbn [ty_stmts1] in H.
+  destruct (ty_stmt1 E st) as [E1|] eqn:T1; [|discriminate]. cbn [annotate1]. rewrite T1. cbn [ty_stmts1].
+  assert (X : ty_stmt1 E match st with
+                         | D1 x k annot e => D1 x k (if sel i then (match ty1 E e with Some t => Some t | None => annot end) else annot) e
+                         | _ => st end = Some E1).
+  { destruct st as [x k annot e|x e|e]; try exact T1. cbn [ty_stmt1] in *. destruct (ty1 E e) as [t|]; [|discriminate].
+    destruct (sel i); [|exact T1]. rewrite bty_eqb_refl. destruct annot as [t0|]; [destruct (bty_eqb t0 t); [exact T1|discriminate]|exact T1]. }
+  rewrite X. now apply IH.
+Qed.
+
+Section Same2.
+  Variable kinds : PositiveMap.t varkind.
+  Variable ctx : tctx.
+  Lemma annotate1_side sel : forall ss i E, forallb (side_s kinds ctx) (annotate1 sel i E ss) = forallb (side_s kinds ctx) ss.
+  Proof.
+    induction ss as [|st q IH]; intros i E; [reflexivity|]. destruct st; cbn [annotate1 forallb side_s]; rewrite IH; reflexivity.
+  Qed.
+  Lemma annotate1_defs sel : forall ss i E, defs (annotate1 sel i E ss) = defs ss.
+  Proof.
+    unfold defs. induction ss as [|st q IH]; intros i E; [reflexivity|]. destruct st; cbn [annotate1 flat_map def_of]; rewrite IH; reflexivity.
+  Qed.
+  Lemma annotate1_depth sel e : forall ss i E, max_depth (annotate1 sel i E ss) e = max_depth ss e.
+  Proof.
+    induction ss as [|st q IH]; intros i E; [reflexivity|]. destruct st; cbn [annotate1 max_depth depth_s]; rewrite IH; reflexivity.
+  Qed.
+End Same2.
+
+(* an accepted block stays accepted when the inferred types are written on any subset of its definitions *)
+Theorem accept_annotate_E1 kinds g0 f0 ctx sp ss e sel s r ov s' :
+  frag_stmts1 [] ss e = true -> NoDup (defs ss) -> wf s -> (forall x, In x (defs ss) -> fresh s x) ->
+  expression_block (gfix g0) (afix kinds (gfix g0) f0) sp (to_block1 sp ss e) ctx s = Ok ((r, ov), s') ->
+  forall g f, (max_depth ss e < S f)%nat ->
+    exists t c v s'',
+      ov = Some c /\ head s' c = Some (bty_head t) /\
+      expression_block (gfix (S (S (S (S g))))) (afix kinds (gfix (S (S (S (S g))))) (S (S f))) sp
+                       (to_block1 sp (annotate1 sel 0 [] ss) e) ctx s = Ok ((None, Some v), s'') /\
+      wf s'' /\ head s'' v = Some (bty_head t).
+Proof.
+  intros Hf Nd W Fr H g f Hd.
+  destruct (accepted_block1 kinds g0 sp ss e f0 ctx s r ov s' Hf W H) as (t & c & Ty & -> & Hc).
+  pose proof (side_of_accepted kinds g0 ctx sp ss e f0 s _ s' H) as Sd.
+  assert (Sd' : side_block kinds ctx (annotate1 sel 0 [] ss) e = true).
+  { unfold side_block in *. rewrite annotate1_side. exact Sd. }
+  assert (Ty' : ty_block1 [] (annotate1 sel 0 [] ss) e = Some t).
+  { unfold ty_block1 in *. destruct (ty_stmts1 [] ss) as [E'|] eqn:T; [|discriminate].
+    rewrite (annotate1_typed sel ss 0 [] E' T). exact Ty. }
+  destruct (complete_block kinds g ctx sp (annotate1 sel 0 [] ss) e t f s Ty' Sd') as (v & s'' & H' & W'' & Hv).
+  - rewrite annotate1_defs. exact Nd.
+  - rewrite annotate1_depth. exact Hd.
+  - exact W.
+  - intros x Hx. rewrite annotate1_defs in Hx. now apply Fr.
+  - exists t, c, v, s''. auto.
+Qed.
